@@ -307,9 +307,29 @@ where $($args: Getable<'vm, 'vm> + 'vm,)*
             lock = stack.into_lock();
 
             drop(context);
-            let r = (*self)($($args),*);
+            // The caller is an `extern "C"` function which a panic must not unwind into (that aborts
+            // the whole process), instead the panic is reported as a failure of this call
+            let r = ::std::panic::catch_unwind(::std::panic::AssertUnwindSafe(|| {
+                (*self)($($args),*)
+            }));
             context = vm.current_context();
-            r
+            match r {
+                Ok(r) => r,
+                Err(payload) => {
+                    context.stack().release_lock(lock);
+                    let msg = match payload.downcast_ref::<&str>() {
+                        Some(msg) => *msg,
+                        None => match payload.downcast_ref::<String>() {
+                            Some(msg) => &msg[..],
+                            None => "Primitive function panicked",
+                        },
+                    };
+                    let mut context = context.context();
+                    let msg = context.gc.alloc_ignore_limit(msg);
+                    context.stack.push(Variants::from(msg));
+                    return Status::Error;
+                }
+            }
         };
 
         r.async_status_push(&mut context, lock, frame_index)
